@@ -43,6 +43,7 @@ class FucResult(object):
         self.source_hash = None
         self.assumed = set()
         self.dropped = {'print': 0, 'warn': 0, 'log': 0}
+        self.bounded_cuts = 0
         self.outcomes = {}
         self.seconds = 0.0
 
@@ -395,6 +396,7 @@ def verify_contract(program, c, max_paths=None, lookup=None):
         res.assumed |= ex.assumed_contracts
         for k in res.dropped:
             res.dropped[k] = max(res.dropped[k], ex.dropped[k])
+        res.bounded_cuts += getattr(ex, 'bounded_cuts', 0)
         res.outcomes[outcome[0]] = res.outcomes.get(outcome[0], 0) + 1
         for ob in ex.obligations:
             key = (ob.kind, ob.label, ob.hyps, ob.goal, ob.must_be_sat)
